@@ -2,6 +2,7 @@ CONSTANTS
   Dev = {"BugArrayTrailingComma"}
   Alphabet <- AlphaTok
   MaxLen = 4
+  Prune = TRUE
   DepthProbe = {256}
 INIT Init
 NEXT Next
